@@ -32,6 +32,10 @@ func init() {
 }
 
 func runC16(c *an.Ctx) {
+	// ---- R9: time and protocol reported for a query are this query's: request information is built per message and per server
+	c.Floor("C16-R9", 2)
+	c.Borrow("C16-R9", runC18, func(o an.Obligation) bool { return o.Rule == "C18-R5" && strings.Contains(o.Key, "serveTCPConn") })
+	c.Inf("C16-R9", "hand-off sweep", token.NoPos, "%d hand-offs examined", sharedRetainedArgs(c, "C16-R9", "dnssvc.", "cmd."))
 	c16Wiring(c)
 	// ---- R7: every query attributed to a profile is recorded for billing, whatever its logging settings
 	c.Floor("C16-R7", 1)
